@@ -16,7 +16,8 @@ EXPLANATION = (
     'same method and descriptor; (CEIL) ceiling sets derive from the training RDMs and never from the test RDMs; '
     '(GROUP) bootstrap multiplicities are expanded on both sides. Fold sizes, exhaustive coverage and element-level '
     'perturbation statements are NOT decided.'
-    ' Also: (SEL-DESC) the RDMs selectors the set generators rely on find positions from the descriptor VALUES in every arm.')
+    ' Also: (SEL-DESC) the RDMs selectors the set generators rely on find positions from the descriptor VALUES in every arm.'
+    ' Round 6: (TEST-RDMS) the test entries of sets_k_fold are cut from the test RDMs unconditionally.')
 ASSUMPTIONS = [
     'NI proofs are at variable level on explicit (data) flows: array elements are not tracked; control dependence on '
     'test-set *sizes* (the n_rdm == 0 / n_cond <= 2 guards) is not a leak of values and is ignored for this clause',
